@@ -406,6 +406,11 @@ def b_enumerate(ex, v, start=0):
     return Cursor([(i + start, x) for i, x in enumerate(ex.iterate(v))])
 
 
+def b_map(ex, f, *its):
+    cols = [ex.iterate(it) for it in its]
+    return [ex.call_value(f, list(args), {}) for args in zip(*cols)]
+
+
 def b_zip(ex, *vs, strict=False):
     return Cursor(list(zip(*[ex.iterate(v) for v in vs])))
 
@@ -571,7 +576,7 @@ def _n(f, name=None):
 
 DEFAULT = {
     'len': _n(b_len), 'all': _n(b_all), 'any': _n(b_any), 'sum': _n(b_sum), 'min': _n(b_min), 'max': _n(b_max), 'abs': _n(b_abs),
-    'sorted': _n(b_sorted), 'reversed': _n(b_reversed), 'enumerate': _n(b_enumerate), 'zip': _n(b_zip), 'iter': _n(b_iter), 'next': _n(b_next),
+    'sorted': _n(b_sorted), 'reversed': _n(b_reversed), 'enumerate': _n(b_enumerate), 'zip': _n(b_zip), 'map': _n(b_map), 'iter': _n(b_iter), 'next': _n(b_next),
     'range': _n(b_range), 'callable': _n(b_callable), 'getattr': _n(b_getattr), 'hasattr': _n(b_hasattr), 'setattr': _n(b_setattr),
     'isinstance': _n(b_isinstance), 'type': _n(b_type), 'round': _n(b_round), 'print': _n(b_print), 'repr': _n(b_repr), 'id': _n(b_id),
     'int': TypeTok('int', b_int), 'float': TypeTok('float', b_float), 'bool': TypeTok('bool', b_bool), 'str': TypeTok('str', b_str),
